@@ -4,7 +4,7 @@
 // Not part of the repository; grafted into package mcp by -overlay.
 //
 // Record (one per case, after `reset`):
-//   close lvl=<conn|sess> eof=<x0|x3|slow|ign> term=<dfl|h0|hslow|ign> self=<no|x0|x2> out=<ok|garbage>
+//   close lvl=<conn|sess> eof=<x0|x3|slow|ign> term=<dfl|h0|hslow|ign> self=<no|x0|x2> out=<ok|garbage|hold|late>
 //         td=<ms> dflt=<0|1> pre=<none|init> second=<no|conn|rwc> pending=<0|1> conc=<0|1> slack=<buckets>
 //   ->    connect=<ok|err> res=<nil|exiterr|stdin|done|unresp|waited2|hang|other> eb=<n> death=<e0|en|st|sk|so|nr>
 //         term=<tno|tneg|t<k>> eof=<0|1> gone=<0|1> leak=<0|1> second=<na|same|diff|stdin|nil|hang|other> pend=<na|ok|err|hang>
@@ -129,12 +129,18 @@ func verifCmdChild(mode string) {
 		verifCmdLog("self-exit")
 		os.Exit(code)
 	}
-	server := NewServer(&Implementation{Name: "verif-child", Version: "v1"}, &ServerOptions{
-		InitializedHandler: func(context.Context, *InitializedRequest) {
-			if kv["self"] != "no" {
-				go selfExit()
-			}
-		},
+	server := NewServer(&Implementation{Name: "verif-child", Version: "v1"}, nil)
+	// the parent pokes a session-level child that is to vanish or to talk garbage in the middle of the session
+	// (the modern handshake sends no initialized notification to hang this on)
+	AddTool(server, &Tool{Name: "poke"}, func(ctx context.Context, req *CallToolRequest, args map[string]any) (*CallToolResult, any, error) {
+		verifCmdLog("poked")
+		if kv["out"] == "late" {
+			os.Stdout.WriteString("this is }{ not json either\n")
+		}
+		if kv["self"] != "no" {
+			go selfExit()
+		}
+		return &CallToolResult{Content: []Content{&TextContent{Text: "ok"}}}, nil, nil
 	})
 	AddTool(server, &Tool{Name: "slow"}, func(ctx context.Context, req *CallToolRequest, args map[string]any) (*CallToolResult, any, error) {
 		verifCmdLog("tool-start")
@@ -146,6 +152,14 @@ func verifCmdChild(mode string) {
 	})
 	if kv["out"] == "garbage" {
 		os.Stdout.WriteString("this is }{ not json\n")
+	}
+	if kv["out"] == "hold" {
+		// a grandchild keeps the write end of our stdout open beyond our own exit
+		gc := exec.Command("sleep", "2")
+		gc.Stdout = os.Stdout
+		if err := gc.Start(); err == nil {
+			verifCmdLog("grandchild")
+		}
 	}
 	var tr Transport = &StdioTransport{}
 	if kv["eof"] == "ign" {
@@ -220,7 +234,7 @@ func (c verifCmdCase) ops(tdEff time.Duration) string {
 		}
 		return 0
 	}
-	slack := int(verifCmdSlack/tdEff) + 1
+	slack := int((verifCmdSlack+50*time.Second)/tdEff) + 1 // + the bounds of Connect and of waiting for the peer to vanish
 	return fmt.Sprintf("close lvl=%s eof=%s term=%s self=%s out=%s td=%d dflt=%d pre=%s second=%s pending=%d conc=%d slack=%d",
 		c.lvl, c.eof, c.term, c.self, c.out, c.tdms, b(c.dflt), c.pre, c.second, b(c.pending), b(c.conc), slack)
 }
@@ -390,8 +404,19 @@ func verifRunCmdCase(dir string, idx int, c verifCmdCase) (obs string, tags []st
 			tags = append(tags, "connect-err")
 		} else {
 			closeFn = cs.Close
-			if c.self != "no" {
-				verifWithin(20*time.Second, func() { cs.Wait() })
+			if c.self != "no" || c.out == "late" {
+				// the peer vanishes / talks garbage: the SDK closes the connection by itself (pipeRWC.Close runs
+				// before our Close); wait for that
+				pctx, pc := context.WithTimeout(ctx, 20*time.Second)
+				cs.CallTool(pctx, &CallToolParams{Name: "poke"})
+				pc()
+				if !verifWithin(20*time.Second, func() { cs.Wait() }) {
+					tags = append(tags, "peer-gone-unnoticed")
+					if os.Getenv("VERIF_CMD_DEBUG") != "" {
+						buf := make([]byte, 1<<20)
+						os.Stderr.Write(buf[:runtime.Stack(buf, true)])
+					}
+				}
 			}
 		}
 	}
@@ -426,6 +451,11 @@ func verifRunCmdCase(dir string, idx int, c verifCmdCase) (obs string, tags []st
 	res, eb, death := "na", 0, "nr"
 	var firstErr error
 	t0 := time.Now()
+	if c.lvl == "sess" && (c.self != "no" || c.out == "late" || c.out == "garbage") {
+		// the SDK may have begun closing on its own, any time after tStart: the grace periods and the elapsed
+		// buckets (lower bounds all) are judged from there
+		t0 = tStart
+	}
 	if closeFn != nil {
 		var err2 error
 		var wg sync.WaitGroup
@@ -521,6 +551,9 @@ func verifRunCmdCase(dir string, idx int, c verifCmdCase) (obs string, tags []st
 	}
 	termSeen, eofSeen := "tno", "0"
 	if b, err := os.ReadFile(logp); err == nil {
+		if os.Getenv("VERIF_CMD_DEBUG") != "" {
+			os.Stderr.Write(b)
+		}
 		for _, l := range strings.Split(string(b), "\n") {
 			f := strings.Fields(l)
 			if len(f) >= 1 && (f[0] == "eof" || f[0] == "run") && termSeen == "tno" {
@@ -701,17 +734,22 @@ func TestVerifCmdTransport(t *testing.T) {
 		c = base("sess", "x0", "h0"); c.second = "conn"; c.conc = true; cases = append(cases, c)
 		c = base("sess", "x0", "dfl"); c.pending = true; cases = append(cases, c)
 		c = base("sess", "ign", "h0"); c.pending = true; c.conc = true; cases = append(cases, c)
+		c = base("conn", "x0", "dfl"); c.out = "hold"; cases = append(cases, c)
+		c = base("sess", "ign", "hslow"); c.out = "late"; cases = append(cases, c)
 	}
 	// … then random combinations of all axes
 	pick := func(xs ...string) string { return xs[rng.Intn(len(xs))] }
-	for n := verifN(4, 60); n > 0; n-- {
+	for n := verifN(16, 240); n > 0; n-- {
 		c := base(pick("conn", "sess"), pick("x0", "x3", "slow", "ign"), pick("dfl", "h0", "hslow", "ign"))
 		c.tdms = 200 + rng.Intn(5)*50
 		if rng.Intn(5) == 0 {
 			c.self = pick("x0", "x2")
 		}
-		if rng.Intn(6) == 0 {
-			c.out = "garbage"
+		if rng.Intn(4) == 0 {
+			c.out = pick("garbage", "hold", "late")
+			if c.out == "late" && c.lvl == "conn" {
+				c.out = "hold"
+			}
 		}
 		if c.lvl == "conn" && rng.Intn(2) == 0 {
 			c.pre = "init"
